@@ -402,6 +402,20 @@ func (cx *Ctx) batchCompletedWriters(r *Report, per map[string][]hev) {
 						okW = true
 					}
 				}
+				// a local copy that is brought in line with what a callee already stored and is
+				// never written to the store afterwards declares nothing
+				if !okW {
+					stored := false
+					for _, y := range per[name] {
+						if y.ev.Kind == "store.set" && hasPrefix(y.ev, "service:RequestContextKey=0x08") && reachesBefore(x.ev, y.ev) {
+							stored = true
+						}
+					}
+					if !stored {
+						r.ok("batch-completed-writers", kc.next(name), x.ev.Pos(cx), "BatchState := COMPLETED on a copy of the context that is not stored afterwards")
+						continue
+					}
+				}
 				r.check(okW, "batch-completed-writers", kc.next(name), x.ev.Pos(cx), "BatchState := COMPLETED is written by the batch-completion function or the automatic pause", "BatchState is set to COMPLETED in "+shortFn(x.ev.Fr.Fn)+" (reached from "+name+"), outside batch completion and automatic pause: the expired-batch handler then skips the slash and refund of the batch's unanswered requests, which end with neither outcome")
 			}
 		}
